@@ -2,6 +2,7 @@ import FiberModel.DriverUtil
 import FiberModel.C11.Spec
 import FiberModel.C18.Spec
 import FiberModel.C18.Pool
+import FiberModel.C18.History
 /-
 Driver for C18. Case shapes (after the id):
   asm   base url method cH rH cQ rQ cC rC cP rP jarC cUA rUA cRef rRef cTO rTO bodyKind body form files delay  implObs
@@ -193,7 +194,13 @@ def handleAsm (id : String) (f : List String) (impl : String) : Except String Ve
     let poolOf (s : String) : Option (String × Bool) :=
       if s.endsWith ";pool=1" then some ((s.dropEnd 7).toString, true)
       else if s.endsWith ";pool=0" then some ((s.dropEnd 7).toString, false) else none
-    let some (implCore, pool) := poolOf implCore0 | throw "unparsable-observation"
+    let some (implCore1, pool) := poolOf implCore0 | throw "unparsable-observation"
+    -- the client-level configuration (path parameters, headers, query parameters, cookies under every key of the
+    -- history, base URL) read before the first and after the last request of the case's history: equal?
+    let ccfgOf (s : String) : Option (String × Bool) :=
+      if s.endsWith ";ccfg=1" then some ((s.dropEnd 7).toString, true)
+      else if s.endsWith ";ccfg=0" then some ((s.dropEnd 7).toString, false) else none
+    let some (implCore, ccfg) := ccfgOf implCore1 | throw "unparsable-observation"
     -- model
     let modelCore : String := match assemble cfg with
       | none => "err=" ++ toHexField (b "the URL is incorrect")
@@ -208,11 +215,13 @@ def handleAsm (id : String) (f : List String) (impl : String) : Except String Ve
     if needsNorm && !k2 then throw "outside-domain: URL that the server normalises" else
     -- an ambiguous template leaves the *property* without an expectation for the path; the model of the code is valid there
     let outside := (assemble cfg).isSome && !willTimeout && k2
-    let modelObs := if outside then impl else modelCore ++ ";pool=1;det=1"
+    let modelObs := if outside then impl else modelCore ++ ";ccfg=" ++ (if (runHistory cfg.client (List.replicate 4 (cfg.request, cfg.body))
+        cfg.baseURL cfg.url cfg.method cfg.jar).2 == cfg.client then "1" else "0") ++ ";pool=1;det=1"
     -- spec
     let spec : Option String :=
       if !det then some "deterministic-function-of-configuration"
       else if !pool then some "nothing-leaks-through-pooled-request-response"
+      else if !ccfg then some "requests-leave-the-client-configuration-alone"
       else match assemble cfg with
         | none => if implCore.startsWith "err=" then none else some "invalid-url-is-an-error"
         | some _ =>
